@@ -74,11 +74,6 @@ impl RefRx {
                 if delivered {
                     v.push(("delivers-at-intermediate".into(), format!("an intermediate fragment yields a delivered PDU: {}", real.brief())));
                 }
-                if let (DecapOut::Fragmented { meta, .. }, Some(t)) = (real, self.open.get(&f)) {
-                    if meta.exts != t.exts {
-                        v.push(("fragment-extensions-differ".into(), format!("intermediate fragment reported with extensions {:?}, first fragment carried {:?}", meta.exts, t.exts)));
-                    }
-                }
             }
             Kind::End => {
                 let f = p.frag_id.unwrap();
